@@ -56,6 +56,24 @@ def jobs(tier, seed):
     for shp in [[2, 2]] + ([[2, 3], [3, 2]] if tier != "quick" else []):
         for obs in cells(tuple(shp)):
             out.append({'name': 'viewshed-%dx%d-obs%d%d' % (shp[0], shp[1], obs[0], obs[1]), 'kind': 'whole', 'shape': shp, 'obs': list(obs)})
+    # larger rasters, fixed terrain with one or two symbolic cells.  Pairs are restricted to (nearer cell whose angular span contains the farther cell's bearing, farther cell):
+    # only those can change each other's visibility
+    single, pairs = [], []
+    for shp in ([2, 3], [3, 2], [3, 3], [2, 4]):
+        for obs in cells(tuple(shp)):
+            others = [c for c in cells(tuple(shp)) if c != obs]
+            for c in others:
+                single.append({'name': 'viewshed-sparse-%dx%d-obs%d%d-%d%d' % (shp[0], shp[1], obs[0], obs[1], c[0], c[1]), 'kind': 'whole-sparse', 'shape': shp, 'obs': list(obs),
+                               'sym': [list(c)], 'target_elev': 0.5 if (c[0] + c[1]) % 2 else 0.0})
+            for a, b in itertools.permutations(others, 2):
+                if _occludes(a, b, obs):
+                    pairs.append({'name': 'viewshed-sparse-%dx%d-obs%d%d-%d%d_%d%d' % (shp[0], shp[1], obs[0], obs[1], a[0], a[1], b[0], b[1]), 'kind': 'whole-sparse', 'shape': shp,
+                                  'obs': list(obs), 'sym': [list(a), list(b)]})
+    if tier == 'quick':
+        out += [j for j in single if j['shape'] != [2, 4]]
+        out += pick([j for j in pairs if j['shape'] in ([2, 3], [3, 2])], 24, seed + 5)
+    else:
+        out += single + pairs
     for shp in ([3, 3], [2, 4]):
         for obs in cells(tuple(shp)):
             out.append({'name': 'events-%dx%d-obs%d%d' % (shp[0], shp[1], obs[0], obs[1]), 'kind': 'events', 'shape': shp, 'obs': list(obs)})
@@ -115,6 +133,15 @@ def _cell_geometry(r, c, vr, vc):
     return ca, enter, exit_
 
 
+def _occludes(a, b, obs, ew=1.0, ns=2.0):
+    vr, vc = obs
+    ca, en, ex = _cell_geometry(a[0], a[1], vr, vc)
+    cb = _bearing(b[0], b[1], vr, vc)
+    da = ((a[1] - vc) * ew) ** 2 + ((a[0] - vr) * ns) ** 2
+    db = ((b[1] - vc) * ew) ** 2 + ((b[0] - vr) * ns) ** 2
+    return da < db - 1e-12 and en[0] - EPS <= _unwrap(cb, ca) <= ex[0] + EPS
+
+
 def body(ctx, job):
     kind = job['kind']
     if kind == 'tree':
@@ -123,17 +150,27 @@ def body(ctx, job):
         return body_vertical(ctx, job)
     # the vertical angle divides by the symbolic elevation difference; its formula is checked by the vertical-angle jobs, so the
     # quotient is left unconstrained here (keeps every query of the sweep linear)
-    sc.set_axioms(atan_mono=True, div_axiom=(kind != 'whole'))
+    sc.set_axioms(atan_mono=True, div_axiom=(kind not in ('whole', 'whole-sparse')))
     h, w = job['shape']
     vr, vc = job['obs']
-    elev = ctx.array('e', (h, w), 'float64', nan=False, lo=-50, hi=50)
+    if kind == 'whole-sparse':
+        # only the listed cells are symbolic, the rest of the terrain is a fixed gentle pattern: keeps the number of gradient orderings small on larger rasters
+        elev = symnp.asarray([[float(((y * 2 + x) % 3) - 1) for x in range(w)] for y in range(h)], 'float64').copy()
+        for (r, c) in job['sym']:
+            elev[r, c] = ctx.real('e_%d_%d' % (r, c), lo=-50, hi=50)
+    else:
+        elev = ctx.array('e', (h, w), 'float64', nan=False, lo=-50, hi=50)
     ew, ns = 1.0, 2.0
     xs = coords_affine(w, 10.0, ew)
     ys = coords_affine(h, 20.0 + 2.0 * (h - 1), -ns)
     if kind == 'events':
         return body_events(ctx, job, elev)
-    obs_elev = ctx.real('observer_elev', lo=-5, hi=5)
-    tgt = ctx.real('target_elev', lo=0, hi=5)
+    if kind == 'whole-sparse':
+        # concrete observer / target offsets: only gradients that involve a symbolic cell are atan applications
+        obs_elev, tgt = job.get('observer_elev', 1.5), job.get('target_elev', 0.0)
+    else:
+        obs_elev = ctx.real('observer_elev', lo=-5, hi=5)
+        tgt = ctx.real('target_elev', lo=0, hi=5)
     agg = raster(elev, ys=ys, xs=xs, name='dem', attrs={'res': (ew, ns)})
     x0 = float(xs[vc])
     y0 = float(ys[vr])
